@@ -1401,6 +1401,41 @@ GEN(int) @Down(n int) {
 	RETURN
 }`, Drives: []Drive{gen("int", "@Skip", "8"), gen("int", "@Bump", "4"), gen("int", "@Down", "6")}},
 
+	{Name: "SwitchInitYieldsTrivialCases", Props: []string{"C05", "C01", "C11"}, Src: `
+// the only yields of a switch statement are in its initialiser (a Yield, a YieldFrom): every clause is yield-free
+GEN(int) @Two(a int) { YIELD(a); YIELD(a + 1); RETURN }
+GEN(int) @A(tag int) {
+	t := 0
+	switch YIELD(5); tag {
+	case 1:
+		t = 10
+	default:
+		t = 20
+	}
+	YIELD(t)
+	RETURN
+}
+GEN(int) @B(tag int) {
+	t := 0
+	switch YIELDFROM(GENCALL(int, @Two, 1)); tag {
+	case 1:
+		t = 10
+	default:
+		t = 20
+	}
+	YIELD(t)
+	RETURN
+}
+GEN(int) @C(x any) {
+	t := 0
+	switch YIELDFROM(GENCALL(int, @Two, 7)); x.(type) {
+	case int:
+		t = 1
+	}
+	YIELD(t)
+	RETURN
+}`, Drives: []Drive{gen("int", "@A", "1"), gen("int", "@A", "2"), gen("int", "@B", "1"), gen("int", "@B", "2"), gen("int", "@C", "3")}},
+
 	{Name: "TypeSwitchScopes", Props: []string{"C03", "C01"}, Src: `
 GEN(int) @G(vs []any) {
 	for _, v := range vs {
